@@ -90,7 +90,6 @@ ErrRet(e) == Ret(e, 1, <<>>, <<>>, <<>>, None)
 
 Pend(in)      == {p \in pending : p.in = in}
 IsPending(in) == Pend(in) # {}
-Rec(in)       == CHOOSE p \in pending : p.in = in
 OpenedAt(out) == {o \in opened : o[1] = out}
 IsClosedChan(c) == c # Source /\ c \in closedChans
 
